@@ -268,7 +268,14 @@ def run_cfg_after_r4(ctx, p, cfg):
                 if blk["term"]["k"] == "switch" and blk["id"] in f.reachable_blocks():
                     si = SwitchInfo(f, blk["id"])
                     d = strip(si.discr)
-                    if d[0] == "discr" and strip(d[1])[0] == "call" and strip(d[1])[1] == HM_GET:
+                    inner_ = strip(d[1]) if d[0] == "discr" else None
+                    if inner_ is not None and inner_[0] == "phi":
+                        # `iter.next().and_then(|part| children.get(part))`: the lookup's result, or None when the components ran out
+                        calls_ = [strip(a_) for a_ in inner_[1] if strip(a_)[0] == "call"]
+                        rest_ = [a_ for a_ in inner_[1] if strip(a_)[0] != "call"]
+                        if len(calls_) == 1 and all(strip(a_)[0] == "agg" and strip(a_)[2] == "None" for a_ in rest_):
+                            inner_ = calls_[0]
+                    if inner_ is not None and inner_[0] == "call" and inner_[1] == HM_GET:
                         sw = si
             if sw is None:
                 raise ShapeUnrecognised("no match on children.get() in find")
